@@ -24,9 +24,12 @@ import (
 	"time"
 
 	"github.com/moov-io/iso8583"
+	"github.com/moov-io/iso8583/encoding"
 	"github.com/moov-io/iso8583/examples"
 	"github.com/moov-io/iso8583/exp/emv"
 	"github.com/moov-io/iso8583/field"
+	"github.com/moov-io/iso8583/prefix"
+	"github.com/moov-io/iso8583/sort"
 	"github.com/moov-io/iso8583/specs"
 )
 
@@ -82,7 +85,14 @@ func runW(t []string) string {
 	if err != nil || ms <= 0 {
 		return "bad-op"
 	}
-	res, outcome, _ := Watch(time.Duration(ms)*time.Millisecond, func() string { return RunInner(t[2:]) })
+	limit := time.Duration(ms) * time.Millisecond
+	if l := RunLimit(); l < limit {
+		limit = l // several calls hang already: do not wait the full limit for every further one
+	}
+	res, outcome, _ := Watch(limit, func() string { return RunInner(t[2:]) })
+	if outcome == "hang" {
+		hangs.Add(1)
+	}
 	if outcome != "" {
 		return outcome
 	}
@@ -151,6 +161,18 @@ func RunInner(t []string) string {
 			return "err"
 		}
 		return "ok " + ValueTree(f).String()
+	case t[0] == "U" && len(t) == 4 && t[2] == "ujson":
+		// UnmarshalJSON of a field object called DIRECTLY (not through encoding/json, which validates the
+		// document first): U <kind> ujson <hex>
+		f := DirectJSONTarget(t[1])
+		data, ok := UnHex(t[3])
+		if f == nil || !ok {
+			return "bad-op"
+		}
+		if err := f.UnmarshalJSON(data); err != nil {
+			return "err"
+		}
+		return "ok"
 	case t[0] == "M" && len(t) == 4 && t[2] == "json":
 		st, ok := ParseTree(t[1])
 		if !ok {
@@ -249,3 +271,30 @@ func RunInner(t []string) string {
 }
 
 var _ field.Field
+
+// DirectJSONKinds: the field kinds whose UnmarshalJSON the C04 oracle calls directly
+var DirectJSONKinds = []string{"String", "Numeric", "Binary", "Hex", "Bitmap", "Composite"}
+
+// DirectJSONTarget: a new field object of the kind, over a small spec
+func DirectJSONTarget(kind string) json.Unmarshaler {
+	sp := func() *field.Spec {
+		return &field.Spec{Length: 40, Description: "x", Enc: encoding.ASCII, Pref: prefix.ASCII.LL}
+	}
+	switch kind {
+	case "String":
+		return field.NewString(sp())
+	case "Numeric":
+		return field.NewNumeric(sp())
+	case "Binary":
+		return field.NewBinary(&field.Spec{Length: 40, Description: "x", Enc: encoding.Binary, Pref: prefix.Binary.L})
+	case "Hex":
+		return field.NewHex(&field.Spec{Length: 40, Description: "x", Enc: encoding.Binary, Pref: prefix.Binary.L})
+	case "Bitmap":
+		return field.NewBitmap(&field.Spec{Length: 8, Description: "x", Enc: encoding.Binary, Pref: prefix.Binary.Fixed})
+	case "Composite":
+		return field.NewComposite(&field.Spec{Length: 99, Description: "x", Pref: prefix.ASCII.LL,
+			Tag:       &field.TagSpec{Length: 2, Enc: encoding.ASCII, Sort: sort.StringsByInt},
+			Subfields: map[string]field.Field{"01": field.NewString(sp()), "02": field.NewNumeric(sp())}})
+	}
+	return nil
+}
